@@ -30,9 +30,19 @@ class Timeout(Exception):
 def _alarm(*a):
     raise Timeout()
 
+LIMIT_SCALE = [1]
+
+class relaxed(object):
+    """inside this block the per-call real-time limits are 50 times longer: used where a time-out would not mean
+    "skip this case" but would change a verdict (the explanation of a known finding)"""
+    def __enter__(self):
+        self.old = LIMIT_SCALE[0]; LIMIT_SCALE[0] = 50
+    def __exit__(self, *a):
+        LIMIT_SCALE[0] = self.old
+
 def limited(fn, secs=0.1):
     old = signal.signal(signal.SIGALRM, _alarm)
-    signal.setitimer(signal.ITIMER_REAL, secs)
+    signal.setitimer(signal.ITIMER_REAL, secs * LIMIT_SCALE[0])
     try:
         return fn()
     finally:
@@ -598,7 +608,7 @@ def oracle_sets(ctx):
     rng = ctx.subrng("oracle-sets")
     # (4) multi-line inputs build the corresponding set; forceset; compatible
     for i in range(ctx.budget(120, 3000)):
-        if ctx.escalated and len(ctx.violations) >= 5:
+        if ctx.escalated and ctx.unknown_violations() >= 5:
             break
         ds = datetime.datetime(rng.choice([1997, 2000, 2024]), rng.randint(1, 12), rng.randint(1, 28), 9, 0, 0)
         stamp = ds.strftime("%Y%m%dT%H%M%S")
@@ -770,7 +780,7 @@ def oracle_options(ctx):
     rng = ctx.subrng("oracle-options")
     done = 0
     for i in range(ctx.budget(45, 1500)):
-        if ctx.escalated and len(ctx.violations) >= 5:
+        if ctx.escalated and ctx.unknown_violations() >= 5:
             break
         freq, ds, kw = gen_kwargs(rng, small_years=False)
         if kw.get("interval", 1) < 1:
@@ -954,7 +964,7 @@ def oracle_ambient(ctx):
     saved = calendar.firstweekday()
     try:
         for i in range(ctx.budget(70, 2000)):
-            if ctx.escalated and len(ctx.violations) >= 5:
+            if ctx.escalated and ctx.unknown_violations() >= 5:
                 break
             k = i % 7
             calendar.setfirstweekday(k)
@@ -980,10 +990,13 @@ def oracle_ambient(ctx):
                 # D-C13-ambient-wkst is claimed only with: model = implementation for str() and the parse of that text, and the
                 # reparsed occurrences being those of the same arguments with wkst = the ambient value
                 try:
-                    res, _ = impl_parse(s)
-                    m = ctx.driver([str_request(r), "rrs.parse 0000000 %s" % hexs(s)])
-                    case["model_agrees_with_implementation"] = bool(m[0] == "ok " + hexs(s) and canon_impl(res, m[1]) == m[1])
-                    case["explained_by_ambient_week_start"] = bool(head(iter(build(freq, ds, dict(kw, wkst=k)))) == got)
+                    with relaxed():
+                        res, _ = impl_parse(s)
+                        m = ctx.driver([str_request(r), "rrs.parse 0000000 %s" % hexs(s)])
+                        case["model_agrees_with_implementation"] = bool(m[0] == "ok " + hexs(s) and canon_impl(res, m[1]) == m[1])
+                        case["explained_by_ambient_week_start"] = bool(head(iter(build(freq, ds, dict(kw, wkst=k)))) == got)
+                except Timeout:
+                    ctx.count("skipped_explanation_timed_out"); continue      # no verdict on this case, not a violation
                 except Exception as ex:
                     case["model_agrees_with_implementation"] = False; case["matcher_error"] = repr(ex)
                 ctx.violation("under calendar.setfirstweekday(%d) rrulestr(str(rule)) generates different occurrences" % k, case,
@@ -1088,17 +1101,20 @@ def explain_empty_by(ctx, case, r, s, freq, ds, kw, observed):
         return
     case["empty_by"] = empty_by
     try:
-        res, _ = impl_parse(s)
-        m = ctx.driver([str_request(r), "rrs.parse 0000000 %s" % hexs(s)])
-        case["model_agrees_with_implementation"] = bool(m[0] == "ok " + hexs(s) and canon_impl(res, m[1]) == m[1])
-        try:
-            without = build(freq, ds, {k: v for k, v in kw.items() if k not in empty_by})
-            seen = ("occurrences", head(iter(without)))
-        except Timeout:
-            raise
-        except Exception as ex2:
-            seen = ("raised", exc_kind(ex2))
-        case["explained_by_default_of_dropped_part"] = bool(seen == observed)
+        with relaxed():
+            res, _ = impl_parse(s)
+            m = ctx.driver([str_request(r), "rrs.parse 0000000 %s" % hexs(s)])
+            case["model_agrees_with_implementation"] = bool(m[0] == "ok " + hexs(s) and canon_impl(res, m[1]) == m[1])
+            try:
+                without = build(freq, ds, {k: v for k, v in kw.items() if k not in empty_by})
+                seen = ("occurrences", head(iter(without)))
+            except Timeout:
+                raise
+            except Exception as ex2:
+                seen = ("raised", exc_kind(ex2))
+            case["explained_by_default_of_dropped_part"] = bool(seen == observed)
+    except Timeout:
+        case["explanation_timed_out"] = True      # the caller drops the case: no verdict, not a violation
     except Exception as ex:
         case["model_agrees_with_implementation"] = False; case["matcher_error"] = repr(ex)
 
@@ -1116,7 +1132,7 @@ def oracle(ctx):
     # rules on which the model and str() disagreed come first (failing-input search after a correspondence mismatch)
     seeded = [m["rule"] for m in getattr(ctx, "c13_str_mismatch_rules", [])][:200]
     for i in range(n):
-        if ctx.escalated and len(ctx.violations) >= 5:
+        if ctx.escalated and ctx.unknown_violations() >= 5:
             ctx.count("search_stopped_after_failing_inputs_found"); break
         if i == 0:
             # the committed witness of D-C13-empty-by-list is evaluated on every run
@@ -1144,6 +1160,8 @@ def oracle(ctx):
             ctx.case(key)
             case = {"kind": "roundtrip", "text": s, "kwargs": repr(kw), "freq": freq, "dtstart": ds.isoformat()}
             explain_empty_by(ctx, case, r, s, freq, ds, kw, ("raised", exc_kind(ex)))
+            if case.get("explanation_timed_out"):
+                ctx.count("skipped_explanation_timed_out"); continue
             ctx.violation("rrulestr(str(rule)) raised %s" % exc_kind(ex), case, repr(ex))
             continue
         ctx.case(key); ctx.count("roundtrip")
@@ -1152,6 +1170,8 @@ def oracle(ctx):
         if got != base:
             case = {"kind": "roundtrip", "text": s, "kwargs": repr(kw), "freq": freq, "dtstart": ds.isoformat()}
             explain_empty_by(ctx, case, r, s, freq, ds, kw, ("occurrences", got))
+            if case.get("explanation_timed_out"):
+                ctx.count("skipped_explanation_timed_out"); continue
             ctx.violation("rrulestr(str(rule)) generates different occurrences", case,
                           {"rule": [d.isoformat() for d in base[:4]], "reparsed": [d.isoformat() for d in got[:4]]})
             continue
